@@ -360,6 +360,14 @@ fn edge_cases(ctx: &Ctx, stats: &Stats, r: &Reach, tier: Tier, relabel_targets: 
                 if let Some(t) = with_children(path, vec![c], v, false) {
                     check_tree(ctx, stats, "character-content-forbidden", &t, v, "");
                 }
+                // text that consists of control characters only: not whitespace, so it is character content as well
+                for ctl in ["\u{1}", "\u{b}", " \u{1b} ", "\u{0}"] {
+                    let mut c = child.clone();
+                    c.items.push(Item::Text(Val::Str(ctl.into())));
+                    if let Some(t) = with_children(path, vec![c], v, false) {
+                        check_tree(ctx, stats, "character-content-forbidden(control-characters)", &t, v, "");
+                    }
+                }
             }
             if s.etype.is_named_in_version(v) {
                 // SHORT-NAME present but empty: not a "missing SHORT-NAME" by the letter; only the agreement oracles apply
@@ -476,7 +484,7 @@ fn header_cases(ctx: &Ctx, stats: &Stats) {
     let root = |xsd: &str| format!("<AUTOSAR xsi:schemaLocation=\"http://autosar.org/schema/r4.0 {xsd}\" xmlns=\"http://autosar.org/schema/r4.0\" xmlns:xsi=\"http://www.w3.org/2001/XMLSchema-instance\">");
     let w = |t: &str| json!({"text": t});
     // trailing data after the root element
-    for (suffix, documented) in [("<X/>", true), ("text", true), ("<AR-PACKAGES/>", true), ("<!--c-->", false), ("\n \n", false), ("<?pi?>", false), ("</AUTOSAR>", true)] {
+    for (suffix, documented) in [("<X/>", true), ("text", true), ("<AR-PACKAGES/>", true), ("<!--c-->", false), ("\n \n", false), ("<?pi?>", false), ("</AUTOSAR>", true), ("\u{1}", true), ("\n\u{b}\n", true), (" \u{0} ", true), ("\u{1b}", true)] {
         let text = format!("{hdr}{}{body}{suffix}", root(v.filename()));
         let label = format!("trailing-data {suffix:?}");
         check_text(ctx, stats, &label, &text, documented.then_some("data-after-root"), &|| w(&text));
